@@ -1,5 +1,5 @@
 """C19 - opening arbitrary bytes fails only with ELFError; header enumeration terminates."""
-from symx.api import H, ReadBudgetExceeded, AllocBudgetExceeded
+from symx.api import H, ReadBudgetExceeded, AllocBudgetExceeded, StepBudgetExceeded
 from spec import enc
 from spec import elf_layout as L
 from harness.elfkit import Image
@@ -116,6 +116,17 @@ def _battery(ctx, elf):
     run('num_segments', lambda: elf.num_segments())
     segs = []
     run('segments', lambda: segs.extend(elf.iter_segments()))
+    # the filtered enumerations and the presence questions built on them.  Their time is measured in source lines executed inside
+    # the library: a loop over a claimed count that neither reads nor allocates (e.g. 2^64 skipped entries) is cut by this budget
+    ctx.steps_begin(300000 + 2000 * elf.stream_len)
+    try:
+        run('sections-of-type', lambda: list(elf.iter_sections(type='SHT_NOTE')))
+        run('segments-of-type', lambda: list(elf.iter_segments(type='PT_LOAD')))
+        run('has_dwarf_info', lambda: elf.has_dwarf_info())
+        run('has_ehabi_info', lambda: elf.has_ehabi_info())
+        run('section-by-name', lambda: elf.get_section_by_name('.no-such-section'))
+    finally:
+        ctx.steps_end()
     for s in secs[:12]:
         t = type(s).__name__
         if t == 'SymbolTableSection':
@@ -183,6 +194,7 @@ def h_battery(ctx):
     # concrete replay, no peak of traced allocations beyond 1 MiB + 64 x file size
     ctx.alloc_begin((1 << 20) + 64 * len(data))
     over = False
+    slow = False
     try:
         try:
             elf = EF.ELFFile(st)
@@ -197,8 +209,14 @@ def h_battery(ctx):
         return
     except AllocBudgetExceeded:
         over = True
+    except StepBudgetExceeded:
+        slow = True
     finally:
         over = ctx.alloc_end() or over
+    if slow:
+        ctx.outcome('step-budget-exceeded')
+        ctx.check('battery/steps-bounded-by-file-size', False)
+        return
     if over:
         ctx.outcome('allocation-exceeded')
         ctx.check('battery/allocation-bounded-by-file-size', False)
@@ -291,7 +309,7 @@ def _battery_instances(tier):
     return out
 
 
-TIER_PARAMS = {'quick': {'conc_cap': 400, 'max_decisions': 20000, 'deadline_s': 400}, 'thorough': {'conc_cap': 800, 'max_decisions': 60000, 'deadline_s': 3000}}
+TIER_PARAMS = {'quick': {'conc_cap': 400, 'max_decisions': 20000, 'deadline_s': 900}, 'thorough': {'conc_cap': 800, 'max_decisions': 60000, 'deadline_s': 3000}}
 
 HARNESSES = [
     H('h19_1_ctor', h_ctor, _ctor_instances, decoy=-1, expect=('ELFError', 'opened'),
